@@ -242,19 +242,31 @@ package forwarder
 //@   ensures [perio] err == nil && ok(req.URRID()) && ok(req.ReportingTriggers()) && len(val(req.ReportingTriggers())) >= 1 ==>
 //@                     ((val(req.ReportingTriggers())[0] & 1 != 0) == (RuleKey(lSeid, 4, uint64(val(req.URRID()))) in PERIOREQ))
 //@   modifies *
-//@   serves C03 C07
+//@   serves C03 C10 C07
 //@   at call append#3:
 //@     assert [period] len(arg1) == 1 && arg1[0].Type == gtp5gnl.URR_MEASUREMENT_PERIOD && arg1[0].Value == iface(nl.AttrU32(uint32(v / 1000000000)))
 //@   at call UpdateURROID:
 //@     assert [oid]   len(arg2) == 2 && arg2[0] == lSeid && arg2[1] == urrid && arg3 == attrs
+//@   at call append#7:
+//@     assert [conv] len(arg1) == 1 && arg1[0].URRID == r.URRID && arg1[0].QueryUrrRef == r.QueryUrrRef && arg1[0].StartTime == r.StartTime && arg1[0].EndTime == r.EndTime &&
+//@                   arg1[0].USARTrigger.Flags == r.USARTrigger &&
+//@                   arg1[0].VolumMeasure.TotalVolume == r.VolMeasurement.TotalVolume && arg1[0].VolumMeasure.UplinkVolume == r.VolMeasurement.UplinkVolume &&
+//@                   arg1[0].VolumMeasure.DownlinkVolume == r.VolMeasurement.DownlinkVolume && arg1[0].VolumMeasure.TotalPktNum == r.VolMeasurement.TotalPktNum &&
+//@                   arg1[0].VolumMeasure.UplinkPktNum == r.VolMeasurement.UplinkPktNum && arg1[0].VolumMeasure.DownlinkPktNum == r.VolMeasurement.DownlinkPktNum
 
 //@ func (g *Gtp5g) RemoveURR(lSeid uint64, req *ie.IE) (usars []report.USAReport, err error)
 //@   requires g != nil && g.link != nil && g.ps != nil && req != nil
 //@   ensures [unreg] ok(req.URRID()) ==> !(RuleKey(lSeid, 4, uint64(val(req.URRID()))) in PERIOREQ)
 //@   modifies *
-//@   serves C03 C07
+//@   serves C03 C10 C07
 //@   at call RemoveURROID:
 //@     assert [oid]   len(arg2) == 2 && arg2[0] == lSeid && arg2[1] == uint64(val(req.URRID()))
+//@   at call append:
+//@     assert [conv] len(arg1) == 1 && arg1[0].URRID == r.URRID && arg1[0].QueryUrrRef == r.QueryUrrRef && arg1[0].StartTime == r.StartTime && arg1[0].EndTime == r.EndTime &&
+//@                   arg1[0].USARTrigger.Flags == r.USARTrigger &&
+//@                   arg1[0].VolumMeasure.TotalVolume == r.VolMeasurement.TotalVolume && arg1[0].VolumMeasure.UplinkVolume == r.VolMeasurement.UplinkVolume &&
+//@                   arg1[0].VolumMeasure.DownlinkVolume == r.VolMeasurement.DownlinkVolume && arg1[0].VolumMeasure.TotalPktNum == r.VolMeasurement.TotalPktNum &&
+//@                   arg1[0].VolumMeasure.UplinkPktNum == r.VolMeasurement.UplinkPktNum && arg1[0].VolumMeasure.DownlinkPktNum == r.VolMeasurement.DownlinkPktNum
 
 // QER towards the kernel (C03): every child IE value is handed on under the attribute of its own kind; the 40-bit
 // bit rates are split into their high 32 and low 8 bits (gtp5g's representation).
@@ -612,3 +624,70 @@ package forwarder
 //@     assume [A-NLOPEN] ret1 == nil ==> ret0 != nil
 //@   after call OpenServer#2:
 //@     assume [A-NLOPEN] ret1 == nil ==> ret0 != nil
+
+// ---------------------------------------------------------------------------------------------
+// Usage reports read back from gtp5g (C10): each report is converted field by field - URR id, query reference,
+// start / end time, volume and packet counters exactly as measured.
+//@ func (g *Gtp5g) queryURR(lSeid uint64, urrid uint32, ps bool) (usars []report.USAReport, err error)
+//@   requires g != nil && g.link != nil
+//@   ensures [err] err != nil ==> usars == nil
+//@   modifies nothing
+//@   serves C10 C12 C07
+//@   loop range(rs):
+//@     modifies r.*
+//@     invariant [n] len(usars) == idx
+//@   at call GetReportOID:
+//@     assert [oid]  len(arg2) == 2 && arg2[0] == lSeid && arg2[1] == uint64(urrid) && arg0 == ite(ps, g.psClient, g.client)
+//@   at call append:
+//@     assert [conv] len(arg1) == 1 && arg1[0].URRID == r.URRID && arg1[0].QueryUrrRef == r.QueryUrrRef && arg1[0].StartTime == r.StartTime && arg1[0].EndTime == r.EndTime &&
+//@                   arg1[0].VolumMeasure.TotalVolume == r.VolMeasurement.TotalVolume && arg1[0].VolumMeasure.UplinkVolume == r.VolMeasurement.UplinkVolume &&
+//@                   arg1[0].VolumMeasure.DownlinkVolume == r.VolMeasurement.DownlinkVolume && arg1[0].VolumMeasure.TotalPktNum == r.VolMeasurement.TotalPktNum &&
+//@                   arg1[0].VolumMeasure.UplinkPktNum == r.VolMeasurement.UplinkPktNum && arg1[0].VolumMeasure.DownlinkPktNum == r.VolMeasurement.DownlinkPktNum
+
+//@ func (g *Gtp5g) QueryURR(lSeid uint64, urrid uint32) (usars []report.USAReport, err error)
+//@   requires g != nil && g.link != nil
+//@   modifies nothing
+//@   serves C10 C12 C07
+//@   at call queryURR:
+//@     assert [args] arg0 == lSeid && arg1 == urrid && !arg2
+
+//@ func (g *Gtp5g) queryMultiURR(lSeidUrridsMap map[uint64][]uint32, ps bool) (usars map[uint64][]report.USAReport, err error)
+//@   requires g != nil && g.link != nil
+//@   modifies *
+//@   serves C10 C15 C07
+//@   at call append#1:
+//@     assert [oid]  len(arg1) == 1 && len(arg1[0]) == 2 && arg1[0][0] == seid && arg1[0][1] == uint64(urrId)
+//@   at call GetMultiReportsOID#1:
+//@     assert [batch] arg2 == oids && arg0 == ite(ps, g.psClient, g.client) && len(oids) >= 1
+//@   at call GetMultiReportsOID#2:
+//@     assert [rest]  arg2 == oids && arg0 == ite(ps, g.psClient, g.client) && len(oids) >= 1
+//@   at call append#4:
+//@     assert [conv] len(arg1) == 1 && arg0 == usars[r.SEID] && arg1[0].URRID == r.URRID && arg1[0].QueryUrrRef == r.QueryUrrRef && arg1[0].StartTime == r.StartTime && arg1[0].EndTime == r.EndTime &&
+//@                   arg1[0].VolumMeasure.TotalVolume == r.VolMeasurement.TotalVolume && arg1[0].VolumMeasure.UplinkVolume == r.VolMeasurement.UplinkVolume &&
+//@                   arg1[0].VolumMeasure.DownlinkVolume == r.VolMeasurement.DownlinkVolume && arg1[0].VolumMeasure.TotalPktNum == r.VolMeasurement.TotalPktNum &&
+//@                   arg1[0].VolumMeasure.UplinkPktNum == r.VolMeasurement.UplinkPktNum && arg1[0].VolumMeasure.DownlinkPktNum == r.VolMeasurement.DownlinkPktNum
+
+//@ func (g *Gtp5g) RemovePDR(lSeid uint64, req *ie.IE) (err error)
+//@   requires g != nil && g.link != nil && req != nil
+//@   modifies nothing
+//@   serves C02 C07
+//@   at call RemovePDROID:
+//@     assert [oid] len(arg2) == 2 && arg2[0] == lSeid && arg2[1] == uint64(val(req.PDRID()))
+//@ func (g *Gtp5g) RemoveFAR(lSeid uint64, req *ie.IE) (err error)
+//@   requires g != nil && g.link != nil && req != nil
+//@   modifies nothing
+//@   serves C02 C07
+//@   at call RemoveFAROID:
+//@     assert [oid] len(arg2) == 2 && arg2[0] == lSeid && arg2[1] == uint64(val(req.FARID()))
+//@ func (g *Gtp5g) RemoveQER(lSeid uint64, req *ie.IE) (err error)
+//@   requires g != nil && g.link != nil && req != nil
+//@   modifies nothing
+//@   serves C03 C07
+//@   at call RemoveQEROID:
+//@     assert [oid] len(arg2) == 2 && arg2[0] == lSeid && arg2[1] == uint64(val(req.QERID()))
+//@ func (g *Gtp5g) RemoveBAR(lSeid uint64, req *ie.IE) (err error)
+//@   requires g != nil && g.link != nil && req != nil
+//@   modifies nothing
+//@   serves C03 C07
+//@   at call RemoveBAROID:
+//@     assert [oid] len(arg2) == 2 && arg2[0] == lSeid && arg2[1] == uint64(val(req.BARID()))
